@@ -1,6 +1,6 @@
 (* C05 - a process crash at any point never loses or tears an object.  Statements only. *)
 From Coq Require Import List ZArith NArith.
-From DOS Require Import Base Store StoreProofs StoreLemmas Programs ProgramsProofs.
+From DOS Require Import Base Store StoreProofs StoreLemmas Programs ProgramsProofs PackProofs MaintProofs.
 Import ListNotations.
 
 Section C05.
@@ -29,6 +29,35 @@ Proof.
   destruct (add_loose_crash_safe H inflate H_inj w l n chunks m HI) as (A & B & _). split; assumption.
 Qed.
 
+(* (2b) pack_all_loose (one pack: open, appends, INSERT, [flush, fsync], close, COMMIT, [per-pack clean]) for ALL object lists,
+   orders and stored blobs (compressed or not), with or without fsync and per-pack cleaning, and EVERY crash point m *)
+Theorem C05_pack_every_crash_point : forall w l id objs fs clean m,
+  Inv H inflate w -> pending l = [] ->
+  Forall (obj_ok inflate w) objs -> NoDup (map okey objs) -> (forall o, In o objs -> ~ In (okey o) (map rkey (db w))) ->
+  let w' := crash (run_events (w, l) (firstn m (p_pack_one w id objs fs clean))) in
+  Inv H inflate w' /\ (forall k c, stored inflate w k = Some c -> stored inflate w' k = Some c).
+Proof.
+  intros w l id objs fs clean m A B C D E.
+  destruct (pack_one_crash_safe H inflate H_inj w l id objs fs clean m A B C D E) as (X & Y & _). split; assumption.
+Qed.
+
+(* (2c) clean_storage (with or without VACUUM), every listing order, every crash point *)
+Theorem C05_clean_every_crash_point : forall w l vacuum order m,
+  Inv H inflate w -> pending l = [] ->
+  let w' := crash (run_events (w, l) (firstn m (p_clean w vacuum order))) in
+  Inv H inflate w' /\ (forall k c, stored inflate w k = Some c -> stored inflate w' k = Some c).
+Proof.
+  intros w l vacuum order m A B.
+  destruct (clean_crash_safe H inflate H_inj w l false vacuum order m A B) as (X & Y & _). split; assumption.
+Qed.
+
+(* (2d) delete_objects: at every crash point the invariant holds and every object NOT targeted is still stored *)
+Theorem C05_delete_every_crash_point : forall w l ks m,
+  Inv H inflate w -> pending l = [] ->
+  let w' := crash (run_events (w, l) (firstn m (p_delete w ks))) in
+  Inv H inflate w' /\ (forall k c, ~ In k ks -> stored inflate w k = Some c -> stored inflate w' k = Some c).
+Proof. intros w l ks m A B. exact (delete_always H inflate w l ks A B m). Qed.
+
 (* (3) what a new handle returns for a visible key has the key as digest: right bytes, never another object's *)
 Theorem C05_new_handle_never_wrong_bytes : forall w k c, Inv H inflate w -> stored inflate w k = Some c -> H c = k.
 Proof. exact (stored_sound H inflate). Qed.
@@ -40,5 +69,8 @@ Proof. exact (Inv_append_pack H inflate). Qed.
 End C05.
 Print Assumptions C05_monitor_sound.
 Print Assumptions C05_add_loose_every_crash_point.
+Print Assumptions C05_pack_every_crash_point.
+Print Assumptions C05_clean_every_crash_point.
+Print Assumptions C05_delete_every_crash_point.
 Print Assumptions C05_new_handle_never_wrong_bytes.
 Print Assumptions C05_any_spill.
